@@ -8,12 +8,14 @@ import CarModel.Driver.Deferred
 import CarModel.Driver.Xform
 import CarModel.Driver.IdxSer
 import CarModel.Driver.Inspect
+import CarModel.Driver.RO
 namespace Car.Driver
 
 structure DState where
   tbl : HashTable := []
   sess : Option Sess := none
   dsess : Option DSess := none
+  rosess : Option ROSess := none
 
 /-- One script line → (new state, "M …" text, "S …" text). Unknown family → `bad-op`. -/
 def step (st : DState) (line : String) : DState × String × String :=
@@ -55,6 +57,11 @@ def step (st : DState) (line : String) : DState × String × String :=
     else if fam == "xform" then let r := famXform kv; (st, r.1, r.2)
     else if fam == "idxser" then let r := famIdxSer kv; (st, r.1, r.2)
     else if fam == "inspect" then let r := famInspect H kv; (st, r.1, r.2)
+    else if fam == "ro" then let r := famRO kv; ({ st with rosess := some r.1 }, r.2.1, r.2.2)
+    else if fam == "roq" then
+      match st.rosess with
+      | none => (st, "bad-op", "")
+      | some se => let r := famROQ se kv; (st, r.1, r.2)
     else if fam == "idx" then let r := famIdx kv; (st, r.1, r.2)
     else (st, "bad-op", "")
 
